@@ -187,9 +187,15 @@ def run_case(case, ctx):
     if not abs(Z_l - Zref) <= (tau + 1e-11) * Zref:
         ctx.violation("normalization-vs-reference", f"normalization={Z_l!r}, reference Z={Zref!r}",
                       tags={"state": kind}, witness=wit)
-    pn = ctx.lib("probability(Z)", st.probability, sp, Z).numpy()
-    if not abs(float(pn.sum()) - 1) <= 1e-10:
-        ctx.violation("normalised-sum", f"sum p/Z = {float(pn.sum())!r}", tags={"state": kind}, witness=wit)
+    for zname, zarg in (("tensor", Z), ("float", float(Z_l)), ("numpy.float64", np.float64(Z_l))):
+        pn = ctx.lib(f"probability(Z as {zname})", st.probability, sp, zarg, tags={"state": kind, "Z_form": zname}).numpy()
+        ctx.count("normalised_probability_forms_checked")
+        if not abs(float(pn.sum()) - 1) <= 1e-10:
+            ctx.violation("normalised-sum", f"sum p/Z = {float(pn.sum())!r} (Z given as {zname})", tags={"state": kind, "Z_form": zname}, witness=wit)
+        elif np.any(np.abs(pn - prob_l / Z_l) > 1e-12 * (prob_l / Z_l) + 1e-300):
+            i = int(np.argmax(np.abs(pn - prob_l / Z_l) / (prob_l / Z_l + 1e-300)))
+            ctx.violation("normalised-probability", f"probability(v, Z) with Z given as {zname}: {pn[i]!r}, but probability(v)/Z = "
+                          f"{prob_l[i] / Z_l!r}", tags={"state": kind, "Z_form": zname}, witness=wit)
     nrm = float(np.sum(np.abs(psi_l / np.sqrt(Z_l)) ** 2))
     if not abs(nrm - 1) <= 1e-10:
         ctx.violation("unit-norm", f"||psi/sqrt(Z)||^2 = {nrm!r}", tags={"state": kind}, witness=wit)
